@@ -7,9 +7,11 @@ import (
 	"fmt"
 	"os"
 	"path/filepath"
+	"reflect"
 	"sort"
 	"sync/atomic"
 	"time"
+	"unsafe"
 
 	"github.com/benbjohnson/clock"
 
@@ -95,9 +97,27 @@ type VDB struct {
 	TableCloses int
 }
 
-// VSeg wraps a real segment.
+// VSeg wraps a real segment (s) as handed out by the API (h: the Segment value whose DecRef the caller must use).
 type VSeg struct {
 	s *segment[*VTable, any]
+	h Segment[*VTable, any]
+}
+
+func vseg(h Segment[*VTable, any]) *VSeg {
+	if s, ok := h.(*segment[*VTable, any]); ok {
+		return &VSeg{s: s, h: h}
+	}
+	// a wrapper struct embedding *segment as its first field
+	rv := reflect.ValueOf(h)
+	if rv.Kind() == reflect.Struct && rv.NumField() > 0 {
+		tmp := reflect.New(rv.Type()).Elem()
+		tmp.Set(rv)
+		f := tmp.Field(0)
+		if s, ok := reflect.NewAt(f.Type(), unsafe.Pointer(f.UnsafeAddr())).Elem().Interface().(*segment[*VTable, any]); ok {
+			return &VSeg{s: s, h: h}
+		}
+	}
+	panic(fmt.Sprintf("verif: unknown Segment implementation %T", h))
 }
 
 // VOpenDB opens a real TSDB with a trivial table type and a mock clock.
@@ -134,7 +154,7 @@ func (v *VDB) Create(ts time.Time) (*VSeg, error) {
 	if err != nil {
 		return nil, err
 	}
-	return &VSeg{s.(*segment[*VTable, any])}, nil
+	return vseg(s), nil
 }
 
 // ControllerCreate is segmentController.create (no pin).
@@ -143,7 +163,7 @@ func (v *VDB) ControllerCreate(ts time.Time) (*VSeg, error) {
 	if err != nil {
 		return nil, err
 	}
-	return &VSeg{s}, nil
+	return &VSeg{s: s, h: s}, nil
 }
 
 // Select is database.SelectSegments.
@@ -151,7 +171,7 @@ func (v *VDB) Select(tr timestamp.TimeRange, reopen bool) ([]*VSeg, error) {
 	ss, err := v.db.SelectSegments(tr, reopen)
 	out := make([]*VSeg, len(ss))
 	for i := range ss {
-		out[i] = &VSeg{ss[i].(*segment[*VTable, any])}
+		out[i] = vseg(ss[i])
 	}
 	return out, err
 }
@@ -161,7 +181,7 @@ func (v *VDB) Segments(reopen bool) ([]*VSeg, error) {
 	ss, err := v.db.segmentController.segments(context.Background(), reopen)
 	out := make([]*VSeg, len(ss))
 	for i := range ss {
-		out[i] = &VSeg{ss[i]}
+		out[i] = &VSeg{s: ss[i], h: ss[i]}
 	}
 	return out, err
 }
@@ -171,7 +191,7 @@ func (v *VDB) List() []*VSeg {
 	ss := v.db.segmentController.copySegments()
 	out := make([]*VSeg, len(ss))
 	for i := range ss {
-		out[i] = &VSeg{ss[i]}
+		out[i] = &VSeg{s: ss[i], h: ss[i]}
 	}
 	return out
 }
@@ -243,7 +263,7 @@ func (v *VDB) HoldGate() func() {
 func (s *VSeg) IncRef() error { return s.s.incRef(context.Background()) }
 
 // DecRef is segment.DecRef.
-func (s *VSeg) DecRef() { s.s.DecRef() }
+func (s *VSeg) DecRef() { s.h.DecRef() }
 
 // CloseIfIdle is segment.closeIfIdle.
 func (s *VSeg) CloseIfIdle(th int64) bool { return s.s.closeIfIdle(th) }
